@@ -174,6 +174,12 @@ func c04PrintParse(c *ctx, cs c04Case) {
 		diff = fmt.Sprintf("printed form %q -> %q", clipS(a.Str), clipS(b.Str))
 	case !real.EqStrs(ref.NormEllipsis(a.Vars), ref.NormEllipsis(b.Vars)):
 		diff = fmt.Sprintf("variables %q -> %q", a.Vars, b.Vars)
+	case canonicalEllipses(a.Vars) && !real.EqStrs(a.Vars, b.Vars):
+		// the original numbers its ellipses 0,1,2.. in order of appearance: the same names must come back
+		diff = fmt.Sprintf("variables %q -> %q (ellipsis numbering)", a.Vars, b.Vars)
+	}
+	if canonicalEllipses(a.Vars) {
+		c.Class("print-parse/ellipses-numbered-in-order")
 	}
 	if diff != "" {
 		c.Violation("C04/reparsed-message-differs/"+sig, diff+" text="+clipS(text), cs)
@@ -185,9 +191,69 @@ func c04PrintParse(c *ctx, cs c04Case) {
 		c.Violation("C04/completed-bytes-differ/"+sig, d+" text="+clipS(text), cs)
 		return
 	}
+	// a message derived by expanding one of several ellipses is expressible too: its printed form parses back to it
+	if d := derivedRoundTrip(orig, a.Vars); d != "" {
+		c.Violation("C04/derived-message-differs/"+sig, d+" text="+clipS(text), cs)
+		return
+	}
 	if c.WantSample() && len(text) < 260 && len(a.Vars) > 0 {
 		c.Sample(map[string]interface{}{"direction": "print-parse", "printed": text, "variables": a.Vars})
 	}
+}
+
+// canonicalEllipses: at least one ellipsis and the names are exactly
+// "...[0]", "...[1]", .. in order of appearance (what the parser assigns).
+func canonicalEllipses(vars []string) bool {
+	k := 0
+	for _, v := range vars {
+		if ref.IsEllipsisName(v) {
+			if v != fmt.Sprintf("...[%d]", k) {
+				return false
+			}
+			k++
+		}
+	}
+	return k > 0
+}
+
+// derivedRoundTrip expands each ellipsis of a message with at least two of
+// them (one at a time, n = 0 and 1) and sends every derived message through
+// print -> parse; when the derived message numbers its remaining ellipses in
+// order of appearance, the re-parsed one must name them alike.
+func derivedRoundTrip(orig *ast.DataMessage, vars []string) string {
+	var ells []string
+	for _, v := range vars {
+		if ref.IsEllipsisName(v) {
+			ells = append(ells, v)
+		}
+	}
+	if len(ells) < 2 || len(ells) > 6 {
+		return ""
+	}
+	for _, e := range ells {
+		for n := 0; n <= 1; n++ {
+			var d *ast.DataMessage
+			if o := real.Try(func() { d = orig.FillVariables(map[string]interface{}{e: n}) }); o.Panicked {
+				continue // refused expansions (name collisions) are C10/C12 matters
+			}
+			ds := real.Snap(d)
+			if len(ds.Str) > 20000 {
+				continue
+			}
+			msgs, errs, warns, o := smlParse(ds.Str)
+			if o.Panicked || len(errs) > 0 || len(warns) > 0 || len(msgs) != 1 {
+				return fmt.Sprintf("after %s=%d the printed form %q is not accepted: messages=%d errors=%q warnings=%q %s", e, n, clipS(ds.Str), len(msgs), errs, warns, o)
+			}
+			ps := real.Snap(msgs[0])
+			if ps.Str != ds.Str {
+				return fmt.Sprintf("after %s=%d: printed form %q -> %q", e, n, clipS(ds.Str), clipS(ps.Str))
+			}
+			if !real.EqStrs(ref.NormEllipsis(ds.Vars), ref.NormEllipsis(ps.Vars)) || (canonicalEllipses(ds.Vars) && !real.EqStrs(ds.Vars, ps.Vars)) {
+				return fmt.Sprintf("after %s=%d: variables %q -> %q", e, n, ds.Vars, ps.Vars)
+			}
+		}
+	}
+	return ""
 }
 
 // msgEqualVerbatim compares two parser-produced messages observably.
@@ -292,6 +358,51 @@ func runC04(c *ctx) {
 		c.Class("deep-nesting")
 		c04Eval(c, c04Case{Dir: "print-parse", Msg: m})
 	}
+	// an ellipsis followed, in the same list, by lists that have their own ellipses (numbering is by appearance, not by where lists close)
+	for depth := 1; depth <= 4; depth++ {
+		for shape := 0; shape < 8; shape++ {
+			k := 0
+			var build func(d int) *ref.Item
+			build = func(d int) *ref.Item {
+				l := &ref.Item{Kind: ref.L, Children: []*ref.Item{{Kind: ref.U1, Slots: []ref.Slot{{Var: fmt.Sprintf("v%d", d)}}}}}
+				if shape&1 == 1 && d < depth {
+					l.Children = append(l.Children, build(d+1)) // a list with an ellipsis before this list's ellipsis
+				}
+				l.Children = append(l.Children, &ref.Item{Var: "pending"})
+				if d < depth {
+					l.Children = append(l.Children, build(d+1))
+					if shape&2 == 2 {
+						l.Children = append(l.Children, &ref.Item{Kind: ref.A, Str: []byte("x")})
+					}
+					if shape&4 == 4 {
+						l.Children = append(l.Children, build(d+1))
+					}
+				}
+				return l
+			}
+			it := build(0)
+			// unique variable names, ellipses numbered in order of appearance
+			var number func(x *ref.Item)
+			number = func(x *ref.Item) {
+				for _, ch := range x.Children {
+					switch {
+					case ch.Var == "pending":
+						ch.Var = fmt.Sprintf("...[%d]", k)
+						k++
+					case ch.Kind == ref.L && ch.Var == "":
+						number(ch)
+					case len(ch.Slots) == 1 && ch.Slots[0].Var != "":
+						ch.Slots[0].Var = fmt.Sprintf("%s_%d", ch.Slots[0].Var, k)
+					}
+				}
+			}
+			number(it)
+			m := g.Msg(it, false)
+			m.Session = -1
+			c.Class("ellipsis-before-a-list-with-ellipsis")
+			c04Eval(c, c04Case{Dir: "print-parse", Msg: m})
+		}
+	}
 	// converse: accepted texts with varied literal forms and layouts
 	c.parallel(c.pick(20000, 500000), func(i int, r *rng.R) {
 		g := gen.New(r, expressibleProfile(r, i))
@@ -314,7 +425,7 @@ func runC04(c *ctx) {
 		txt := smltext.Render(toks, lead, gaps, smltext.CaseSpelling(r, toks)).Text
 		c04Eval(c, c04Case{Dir: "fixed-point", Text: txt})
 	})
-	c.Required = []string{"print-parse/ascii=plain", "print-parse/ascii=+quote", "print-parse/ascii=+backslash", "print-parse/ascii=+control", "fixed-point/accepted-text", "every-ascii-character", "deep-nesting"}
+	c.Required = []string{"print-parse/ascii=plain", "print-parse/ascii=+quote", "print-parse/ascii=+backslash", "print-parse/ascii=+control", "fixed-point/accepted-text", "every-ascii-character", "deep-nesting", "print-parse/ellipses-numbered-in-order", "ellipsis-before-a-list-with-ellipsis"}
 }
 
 func replayC04(c *ctx, raw json.RawMessage) {
